@@ -597,6 +597,27 @@ def random_config(rng):
     return {"mode": mode, "user": user, "libs": libs}
 
 
+def stress_config(rng, k):
+    """regression scenario for the repaired finding itp-finalize-id-reuse (F34): a second .itp file replaces every block of the
+    first one and defines many new dangling blocks in between, so that freed block objects are very likely to be re-allocated"""
+    d = [100]
+
+    def sec(n, dang):
+        d[0] += 1
+        return {"t": "block", "n": n, "d": d[0], "dang": dang, "g": ""}
+    old = ["O%d" % i for i in range(rng.randint(2, 4))]
+    f1 = {"name": "s1.itp", "kind": "itp", "user": True, "secs": [sec(n, rng.random() < 0.5) for n in old]}
+    secs = []
+    for i, n in enumerate(old):
+        secs.append(sec(n, rng.random() < 0.5))
+        for j in range(rng.randint(3, 8)):
+            secs.append(sec("N%d_%d_%d" % (k % 7, i, j), True))
+    f2 = {"name": "s2.itp", "kind": "itp", "user": rng.random() < 0.5, "secs": secs}
+    if f2["user"]:
+        return {"mode": "ff", "user": [f1, f2], "libs": []}
+    return {"mode": "ff", "user": [f1], "libs": [[f2]]}
+
+
 def _random_chunk(arg):
     wd, items = arg
     out = []
@@ -1033,11 +1054,20 @@ def run(tier):
     cases = ex.cases()
     if len(cases) < 1000:
         raise c.MachineryError("LoadLibExport produced %d cases" % len(cases))
-    ck.stage("replay %d configurations" % len(cases))
     mid = next(k for k in cases if len(k["cfg"]["libs"]) == 2 and k["cfg"]["user"])
     ck.sample({"S->I configuration": describe(mid["cfg"]), "steps": [[h["op"], h["file"]] for h in mid["hist"]], "final store": mid["hist"][-1]["st"], "P-layer": mid["exp"]})
     ck.extra["configurations_exposed_to_id_reuse"] = sum(1 for k in cases if k.get("idrisk"))
-    replay_cases(ck, cases, "export")
+    ck.extra["configurations_exported"] = len(cases)
+    if quick:
+        # every build-mode and two-library configuration, every configuration exposed to id reuse, a seeded sample of the others
+        rq = random.Random(sd)
+        keep = [k for k in cases if k["cfg"]["mode"] == "bld" or len(k["cfg"]["libs"]) == 2 or k.get("idrisk")]
+        rest = [k for k in cases if not (k["cfg"]["mode"] == "bld" or len(k["cfg"]["libs"]) == 2 or k.get("idrisk"))]
+        cases_run = keep + rq.sample(rest, min(len(rest), 500))
+    else:
+        cases_run = cases
+    ck.stage("replay %d of %d configurations" % (len(cases_run), len(cases)))
+    replay_cases(ck, cases_run, "export")
     ck.stage("gen_params on a subset")
     genparams_subset(ck, cases, 150 if quick else 1500, sd)
     # ---- I->S random
@@ -1057,7 +1087,21 @@ def run(tier):
     ck.evaluations += sum(len(t["events"]) for t in traces)
     for t in traces:
         ck.nontrivial.add(json.dumps(describe(t["cfg"]), sort_keys=True))
-    big = max(traces, key=lambda t: len(t["events"]))
+    # regression scenario of the repaired finding F34 (id reuse in PolyplyParser.finalize)
+    scfgs = [stress_config(rng, k) for k in range(600 if quick else 3000)]
+    sparts = []
+    for i, ch in enumerate(c.chunks(list(enumerate(scfgs)), c.NPROC * 2)):
+        d = wd / ("s%d" % i)
+        d.mkdir(exist_ok=True)
+        sparts.append((str(d), ch))
+    straces = [None] * len(scfgs)
+    for part in c.pmap(_random_chunk, sparts):
+        for i, events, exc in part:
+            straces[i] = to_trace(scfgs[i], events, exc)
+    ck.extra["id_reuse_regression_loads"] = len(straces)
+    ck.evaluations += sum(len(t["events"]) for t in straces)
+    traces = traces + straces
+    big = max(traces[:len(cfgs)], key=lambda t: len(t["events"]))
     ck.sample({"I->S random configuration": describe(big["cfg"]), "steps": [[e["op"], e["file"]] for e in big["events"]][:30]})
     validate(ck, traces, "random_traces")
     # binding demonstration
